@@ -571,6 +571,7 @@ def scenarios(prop, count, seed):
         hrn["prep"] = rng.choice([0, 0, 0, 1, 2, 3, 4])
         hrn["emptymsg"] = rng.random() < 0.3
         hrn["rterr"] = rng.random() < 0.3
+        hrn["lateattr"] = rng.random() < 0.2
         hrn["watch"] = rng.random() < 0.2       # schedulers are given a Watch (debug time display)
         # now and then the caller cancels the whole run from outside
         if rng.random() < {"C11": 0.15, "C13": 0.08, "C05": 0.05}.get(prop, 0.03):
